@@ -365,3 +365,6 @@ Definition ast_of_faithful_stmt : Prop :=
     List.length (a_spans A) = List.length (a_tokens A) /\
     a_implicit_tokens A = None /\ a_parse_param A = None /\ a_parse_generics A = None /\
     a_programs A = None /\ a_expect_unused A = [].
+
+(* the hypotheses of the round-trip theorems are satisfiable (witness: YpRoundExample.v) *)
+Definition roundtrip_hyps_satisfiable_stmt : Prop := exists l ag, wf_agram ag /\ wf_layout l ag.
